@@ -145,6 +145,7 @@ func NewClient(conf ClientConfig) *Client {
 // Connect opens network connection to Client to server. Context lifetime is only meant for this call.
 // ctx is to be used for to cancel connection attempt.
 func (c *Client) Connect(ctx context.Context, address string) error {
+	simBeforeLock(&c.mu, true)
 	c.mu.Lock()
 	defer c.mu.Unlock()
 
@@ -178,6 +179,7 @@ func addressExtractor(address string) (string, string) {
 
 // Close closes network connection to Modbus server
 func (c *Client) Close() error {
+	simBeforeLock(&c.mu, true)
 	c.mu.Lock()
 	defer c.mu.Unlock()
 
@@ -203,6 +205,7 @@ func (e *ClientError) Unwrap() error { return e.Err }
 // On modbus exception nil is returned as response and error wraps value of type packet.ErrorResponseTCP or packet.ErrorResponseRTU
 // User errors.Is and errors.As to check if error wraps packet.ErrorResponseTCP or packet.ErrorResponseRTU
 func (c *Client) Do(ctx context.Context, req packet.Request) (packet.Response, error) {
+	simBeforeLock(&c.mu, true)
 	c.mu.Lock()
 	defer c.mu.Unlock()
 
